@@ -111,6 +111,7 @@ def run(ctx):
         _fieldkeep(ctx, cfg, prog, mod)
         _sentinel(ctx, cfg, prog, mod)
         _lookuperr(ctx, cfg, prog, mod)
+        _eqorder(ctx, cfg, prog, mod)
         _gates(ctx, cfg, prog, mod)
     return ctx.finish(EXPLANATION)
 
@@ -339,6 +340,90 @@ def _visit_map(prog, adt):
         if b.kind != 'closure' and b.name == 'visit_map' and 'Visitor' in (b.impl_trait or ''):
             return b
     return None
+
+
+TDS_EQ = '<core::triangulation_data_structure::Tds as std::cmp::PartialEq<core::triangulation_data_structure::Tds>>::eq'
+
+
+def _eqorder(ctx, cfg, prog, mod):
+    """EQORDER: "compares equal to the original": slot-map iteration order is not preserved by removals followed
+    by a round trip (dense storage swaps on removal, serde rebuilds in slot order), so Tds equality must not
+    compare storage contents position by position: every element-wise comparison in `Tds::eq` whose operands
+    come from iterating a slot-map storage must see them through a sort."""
+    ctx.rule('EQORDER', 'Tds equality compares storage contents order-independently (sorted before an element-wise comparison)')
+    b = ctx.anchor(cfg, TDS_EQ)
+    if b is None:
+        return
+    # local-level derivation graph: dst <- src when dst is a reference to / copy of / call result over src
+    back = {}
+    for blk in b.blocks:
+        if blk.cleanup:
+            continue
+        for s_ in blk.stmts:
+            if s_.kind == 'A' and s_.place.is_local():
+                srcs = [o.place.local for o in s_.rv.ops if o.place is not None]
+                if s_.rv.place is not None:
+                    srcs.append(s_.rv.place.local)
+                back.setdefault(s_.place.local, set()).update(srcs)
+        t = blk.term
+        if t.k == 'call' and t.dest is not None and t.dest.is_local():
+            back.setdefault(t.dest.local, set()).update(o.place.local for o in t.args if o.place is not None)
+
+    def origins(l):
+        seen, work = set(), [l]
+        while work:
+            x = work.pop()
+            if x in seen:
+                continue
+            seen.add(x)
+            work.extend(back.get(x, ()))
+        return seen
+
+    # locals produced by iterating a slot-map storage
+    storage_iters = set()
+    for bb, t in b.calls():
+        cn = (t.callee or t.resolved or '')
+        st = (t.func.const.get('selfty') or '') if t.func is not None and t.func.kind == 'k' else ''
+        if cn.rsplit('::', 1)[-1] in ('values', 'iter', 'into_iter', 'values_mut') and 'SlotMap' in (cn + st) and \
+                t.dest is not None and t.dest.is_local():
+            storage_iters.add(t.dest.local)
+    # collections that get sorted: origins of the receiver of every sort* call
+    sorted_origins = set()
+    for bb, t in b.calls():
+        if (t.callee or t.resolved or '').rsplit('::', 1)[-1].startswith('sort') and t.args and t.args[0].place is not None:
+            sorted_origins |= origins(t.args[0].place.local)
+    n = 0
+    for bb, t in b.calls():
+        last = (t.callee or t.resolved or '').rsplit('::', 1)[-1]
+        if last not in ('eq', 'ne', 'zip', 'cmp', 'partial_cmp', 'eq_by', 'lt', 'le'):
+            continue
+        ops = [o.place.local for o in t.args if o.place is not None]
+        from_storage = [l for l in ops if origins(l) & storage_iters]
+        if not from_storage:
+            continue
+        n += 1
+        # each storage-derived operand must share an origin (the collected vector) with a sorted receiver,
+        # other than the storage iterator itself
+        ok = all((origins(l) - storage_iters - origins_of_iters(b, back, storage_iters)) & sorted_origins for l in from_storage)
+        ctx.ob('EQORDER', '%s|cmp%d' % (TDS_EQ, n), cfg, ok,
+               '%s over slot-map contents sees them through a sort' % last if ok else
+               '%s at line %d compares slot-map contents in iteration order: after a removal and a round trip the same '
+               'triangulation iterates in a different order and no longer compares equal' % (last, t.line),
+               site='%s:%d' % (b.file, t.line))
+    ctx.floor('element-wise comparisons of storage contents in Tds::eq', 2, n, cfg)
+
+
+def origins_of_iters(b, back, storage_iters):
+    """Everything the storage iterators themselves derive from (self / other and the storage fields): sharing
+    those is no evidence of a sort."""
+    seen, work = set(), list(storage_iters)
+    while work:
+        x = work.pop()
+        if x in seen:
+            continue
+        seen.add(x)
+        work.extend(back.get(x, ()))
+    return seen
 
 
 def _lookuperr(ctx, cfg, prog, mod):
